@@ -15,6 +15,7 @@ Definition go_summary := map (summarize LGo false) go_decls.
 
 Definition pair_report := map (fun p => let '(c, _, g, _) := p in (c, g, pair_agree p)) pairs.
 Definition gopair_report := map (fun p => let '(n, _, _) := p in (n, gopair_agree p)) gopairs.
+Definition magic_report := map (fun u => let '(n, _, _, _) := u in (n, magic_ok u)) magic_uses.
 Definition const_report := map (fun c => let '(n, _, _, _) := c in (n, const_agree c)) shared_consts.
 
 (* ---- key cases ---- *)
@@ -45,6 +46,9 @@ Inductive kcase :=
 (* reply direction: the kernel's reversed key built into a dirty slot (prior), the Go key of the reversed tuple,
    and the redirect_track key built into a dirty slot *)
 | KRev (f : flow) (gs gd : goaddr) (prior : list N) (go_b c_b c_rt : list N)
+(* conn-state lifecycle: whether the kernel saw FIN/RST, the state byte it stored, and whether the Go janitor's
+   selection deleted that entry at ages just above the closing and just above the established timeout *)
+| KJan (fin_seen : bool) (c_state : N) (age1 age2 : N) (del1 del2 : bool)
 (* connectivity slot: entity (outbound, domain, v6); Go network type; C packet class; observed keys *)
 | KConn (outbound : N) (d : conn_domain) (v6 : bool) (nt : go_nettype) (l4proto : N) (dport53 : bool)
         (go_k : N) (c_k : option N)
@@ -79,6 +83,12 @@ Definition check_case (k : kcase) : list N :=
       err (bytes_eqb go_b gm) 1 ++ err (obytes_eqb cm c_b) 2
       ++ err (bytes_eqb gm sp && obytes_eqb cm sp && obytes_eqb (option_map c_redirect_tuple (c_flow_key LE f)) rt) 3
       ++ err (bytes_eqb go_b sp) 4 ++ err (bytes_eqb c_b sp && bytes_eqb c_rt rt) 5 ++ err (bytes_eqb go_b c_b) 6
+  | KJan fin st a1 a2 d1 d2 =>
+      err (Bool.eqb d1 (go_janitor_deletes st a1) && Bool.eqb d2 (go_janitor_deletes st a2)) 1
+      ++ err (st =? c_state_after fin) 2
+      ++ err (Bool.eqb (go_janitor_deletes (c_state_after fin) a1) (spec_janitor_deletes fin a1)
+              && Bool.eqb (go_janitor_deletes (c_state_after fin) a2) (spec_janitor_deletes fin a2)) 3
+      ++ err (Bool.eqb d1 (spec_janitor_deletes fin a1) && Bool.eqb d2 (spec_janitor_deletes fin a2)) 6
   | KConn o d v6 nt l4 d53 go_k c_k =>
       let gm := go_conn_key o nt in
       let cm := c_conn_key o l4 d53 (negb v6) in
@@ -134,6 +144,7 @@ Definition case_signature (k : kcase) : N * N * N * N :=
                            port_class (f_sport f) * 8 + port_class (f_dport f))
   | KRev f gs gd _ _ _ _ => (7, addr_class (f_src f) * 8 + addr_class (f_dst f), go_class gs * 2 + go_class gd,
                              port_class (f_sport f) * 8 + port_class (f_dport f))
+  | KJan fin st a1 a2 _ _ => (8, (if fin then 1 else 0), st, (if a1 <? go_tcp_timeout_closing_ns then 0 else 1) + (if a2 <? go_tcp_timeout_established_ns then 0 else 2))
   | KConn o d v6 nt l4 d53 _ _ => (2, (if o =? 0 then 0 else if o =? 255 then 2 else 1), conn_domain_idx d * 2 + (if v6 then 1 else 0),
                                    (if d53 then 1 else 0) + (match nt_dom nt with UdUnset => 0 | UdDns => 2 | UdData => 4 end))
   | KLpm p g _ _ f _ _ hit => (3, addr_class (p_addr p), (if p_bits p =? 0 then 0 else if p_bits p mod 8 =? 0 then 1 else 2) * 2 + go_class g,
